@@ -54,9 +54,61 @@ def norm(o):
 
 # {{{ dispatch
 
-def user_instance(name):
+_MI = {}
+
+
+def mi_classes():
+    """Node classes with TWO bases (a 'trait' class with its own handler name first, a stock or
+    user node class second): the handler of the second base is an ancestor handler like any other.
+    Local to this check (C01 / C17 do not need them)."""
+    if _MI:
+        return _MI
+    from pymbolic.primitives import Expression, Sum, Variable, expr_dataclass
+
+    @expr_dataclass()
+    class TraitU(Expression):
+        pass
+
+    @expr_dataclass()
+    class TraitVarU(TraitU, Variable):
+        pass
+
+    @expr_dataclass()
+    class TraitSumU(TraitU, Sum):
+        pass
+
+    class PlainTraitU:                      # not an expression class, no handler name
+        pass
+
+    @expr_dataclass()
+    class PlainTraitVarU(PlainTraitU, Variable):
+        pass
+
+    @expr_dataclass()
+    class TraitVarUU(TraitVarU):
+        pass
+
+    for cls, fields in ((TraitVarU, ("name",)), (TraitSumU, ("children",)),
+                        (PlainTraitVarU, ("name",)), (TraitVarUU, ("name",))):
+        chain = []
+        for c in cls.__mro__:
+            hn = c.__dict__.get("mapper_method")
+            if hn and hn not in chain:
+                chain.append(hn)
+        # (map_leaf / map_algebraic_leaf are what the Mapper base class itself delegates map_variable
+        # to: not part of the menu, as for the generated classes)
+        chain = [h for h in chain if h not in ("map_leaf", "map_algebraic_leaf")]
+        _MI["MI:" + cls.__name__] = dict(cls=cls, fields=fields, handler_chain=tuple(chain))
+    return _MI
+
+
+def class_info(name):
     import vf.usercls_gen as u
-    info = u.CLASSES[name]
+    return mi_classes()[name] if name.startswith("MI:") else u.CLASSES[name]
+
+
+def user_instance(name):
+    info = class_info(name)
     vals = {"name": "x", "children": (1, 2), "child": 5, "prefix": None,
             "scope": "pymbolic_eval", "u": 11, "w": 12}
     return info["cls"](*[vals[f] for f in info["fields"]])
@@ -97,8 +149,7 @@ def expected_handler(expr, mapper):
 def check_dispatch(item):
     from pymbolic.mapper import UnsupportedExpressionError
     name, mask, cached, entry = item
-    import vf.usercls_gen as u
-    chain = u.CLASSES[name]["handler_chain"]
+    chain = class_info(name)["handler_chain"]
     impl = [h for i, h in enumerate(chain) if mask >> i & 1]
     fails = []
     for args, kw in ARG_SHAPES_Q:
@@ -759,7 +810,7 @@ class C04(Check):
         leaves = [V("x"), V("y"), C(2), C(0)]
 
         def dispatch():
-            for name, info in u.CLASSES.items():
+            for name, info in itertools.chain(u.CLASSES.items(), mi_classes().items()):
                 n = len(info["handler_chain"])
                 for mask in range(2 ** n):
                     for cached in (0, 1):
